@@ -1,0 +1,40 @@
+//! Verification hooks, compiled only with the cargo feature `verif-hooks`.
+//!
+//! `yield_point` is called where no lock is held, `event` while the guard protecting the
+//! reported state is still held. Both do nothing unless a test harness installs callbacks.
+#![allow(missing_docs)]
+
+use std::sync::{Arc, RwLock};
+
+pub type YieldFn = dyn Fn(&'static str) + Send + Sync;
+pub type EventFn = dyn Fn(&'static str, &[u64]) + Send + Sync;
+
+static YIELD_HOOK: RwLock<Option<Arc<YieldFn>>> = RwLock::new(None);
+static EVENT_HOOK: RwLock<Option<Arc<EventFn>>> = RwLock::new(None);
+
+/// Install (or remove) the callbacks.
+pub fn set_hooks(yield_hook: Option<Arc<YieldFn>>, event_hook: Option<Arc<EventFn>>) {
+    *YIELD_HOOK.write().unwrap() = yield_hook;
+    *EVENT_HOOK.write().unwrap() = event_hook;
+}
+
+#[inline]
+pub fn yield_point(site: &'static str) {
+    let hook = YIELD_HOOK.read().unwrap().clone();
+    if let Some(hook) = hook {
+        hook(site);
+    }
+}
+
+#[inline]
+pub fn event(site: &'static str, fields: &[u64]) {
+    let hook = EVENT_HOOK.read().unwrap().clone();
+    if let Some(hook) = hook {
+        hook(site, fields);
+    }
+}
+
+/// Re-export of the crate-private polynomial arithmetic so that a harness can call it directly.
+pub mod polymod {
+    pub use crate::util::polysmallmod::*;
+}
